@@ -1,7 +1,7 @@
 //! The rectangle primitive. Also good for drawing squares.
 
 use crate::{
-    geometry::{Point, Size},
+    geometry::Point,
     primitives::{ContainsPoint, OffsetOutline, Primitive},
     transform::Transform,
 };
@@ -27,14 +27,7 @@ impl ContainsPoint for Rectangle {
 
 impl OffsetOutline for Rectangle {
     fn offset(&self, offset: i32) -> Self {
-        let size = if offset >= 0 {
-            self.size.saturating_add(Size::new_equal(offset as u32 * 2))
-        } else {
-            self.size
-                .saturating_sub(Size::new_equal((-offset) as u32 * 2))
-        };
-
-        Self::with_center(self.center(), size)
+        Rectangle::offset(self, offset)
     }
 }
 
